@@ -6,6 +6,7 @@ import Kvass.Pins.Cfg
 import Kvass.Pins.Sidecar
 import Kvass.Proofs.CoordKeep
 import Kvass.Proofs.CoordProv
+import Kvass.Proofs.LoopFaulty
 
 namespace Kvass.Props.C08
 open Kvass Kvass.Coord Kvass.Spec
@@ -101,5 +102,27 @@ theorem C08_ok (swr : Swr) (sc : Sched) (inp : Input)
   unfold C08.ok
   rw [C08_leftAlone, C08_noNeedlessPush, C08_noUpdates, C08_noSecondAssign, C08_dstInSync swr sc inp hnd]
   rfl
+
+/-- **C08 in the closed loop** (coordinator cycle + real sidecar model, any faults on any shards,
+    `ChangeScale` working or not): a running sidecar whose shard is not ready, does not answer, or
+    reports another configuration hash and does not accept the pushed configuration, is after the
+    step exactly as it was — no target update reached it — and it is still running. -/
+theorem C08_loop_left_alone (swr : Swr) (env : Loop.Env) (w : Loop.World) (sc : Sched) (F : List Loop.Fault) (b : Bool)
+    (hrep : w.replicas ≤ w.shards.length)
+    (hidle : ∀ sh ∈ w.running, Sidecar.IdleInv sh.sc) (hmax : (w.replicas : Int) ≤ env.opt.maxShard)
+    {i : Nat} {sh : Loop.Shard} (hrun : w.running[i]? = some sh)
+    (hsync : inSync (Loop.probeOf env sh (Loop.faultAt F i)) = false) :
+    i < (Loop.step swr env w (.cycle sc F b)).replicas ∧ (Loop.step swr env w (.cycle sc F b)).shards[i]? = some sh :=
+  Loop.step_left_alone swr env w sc F b hrep hidle hmax hrun hsync
+
+/-- "… takes part again only once it reports the matching hash": a reachable shard that reports
+    another hash and accepts the pushed raw configuration is in sync in the same cycle; one whose
+    push fails is not -/
+theorem C08_loop_pushed_takes_part (env : Loop.Env) (sh : Loop.Shard) :
+    inSync (Loop.probeOf env sh { outOfSync := true, pushOk := true }) = true ∧
+    inSync (Loop.probeOf env sh { outOfSync := true, pushOk := false }) = false := by
+  constructor
+  · exact Loop.probeOf_pushed_inSync env sh _ rfl rfl rfl rfl
+  · unfold inSync Loop.probeOf; simp
 
 end Kvass.Props.C08
